@@ -251,7 +251,61 @@ func caseBig(c *Ctx) {
 		if c.Prop == "C17" && r%2 == 1 {
 			op = 7
 		}
+		if c.Prop == "C15" && r%2 == 1 {
+			op = 8
+		}
 		switch op {
+		case 8: // Reset, then the same creations as on a new world: same handles, zeroed components, same query order
+			w.Reset()
+			for e := range model {
+				delete(model, e)
+			}
+			dead = dead[:0]
+			k := 65536 + 1 + R.Intn(2000)
+			fresh := ecs.NewWorld(conf)
+			fa := ecs.ComponentID[bigA](&fresh)
+			fb := ecs.ComponentID[bigB](&fresh)
+			ecs.NewBuilder(&fresh, fa, fb).NewBatch(k)
+			ecs.NewBuilder(&w, idA, idB).NewBatch(k)
+			m1, m2 := ecs.All(idA, idB), ecs.All(fa, fb)
+			q1, q2 := w.Query(&m1), fresh.Query(&m2)
+			if q1.Count() != k || q2.Count() != k {
+				fail("big.reset", "after Reset a batch of %d entities counts %d (new world: %d)", k, q1.Count(), q2.Count())
+			}
+			for !failed {
+				n1, n2 := q1.Next(), q2.Next()
+				if n1 != n2 {
+					fail("big.reset", "after Reset the query over %d new entities ends at a different point than on a new world", k)
+					if n1 {
+						q1.Close()
+					}
+					if n2 {
+						q2.Close()
+					}
+					break
+				}
+				if !n1 {
+					break
+				}
+				e := q1.Entity()
+				if e != q2.Entity() {
+					fail("big.reset", "after Reset creation yields %v where a new world yields %v", e, q2.Entity())
+					q1.Close()
+					q2.Close()
+					break
+				}
+				pa, pb := (*bigA)(q1.Get(idA)), (*bigB)(q1.Get(idB))
+				if pa.V != 0 || pb.V != 0 || pb.W != 0 {
+					fail("big.reset", "after Reset a new component of %v starts as %d/%d/%d", e, pa.V, pb.V, pb.W)
+					q1.Close()
+					q2.Close()
+					break
+				}
+				serial++
+				pa.V, pb.V, pb.W = serial, serial*3, ^(serial * 3)
+				model[e] = &bigEnt{a: serial, hasB: true, b: serial * 3}
+			}
+			log = append(log, fmt.Sprintf("Reset, %d creations", k))
 		case 7: // the handle state goes through a dump (every second time as JSON) into a new world
 			d := w.DumpEntities()
 			if R.Chance(0.5) {
